@@ -382,7 +382,7 @@ func TestVerif_C30(t *testing.T) {
 
 	nWorlds := r.N(6, 60)
 	nSweepPerWorld := r.N(30, 80) // base messages with a full skew sweep (sequential, clock-controlled)
-	nMutBases := r.N(300, 3000)   // base messages whose mutants are enumerated (parallel, no clock dependence)
+	nMutBases := r.N(200, 3000)   // base messages whose mutants are enumerated (parallel, no clock dependence)
 	nsub := r.N(2, 3)
 	nClockMut := r.N(12, 300) // bases whose timestamp mutants are replayed with the clock moved onto them
 
